@@ -15,6 +15,7 @@ predicate over pa(y), {x}, pa(x) in every admissible world; (PATTERN) also for p
 extension may carry weights, no decision may read them); lints: truth value of node labels, np.isin with a set.
 Not decided: that an algorithm of this shape marks exactly the compelled edges (Chickering's theorem).
 """
+import ast
 from .common import *
 from ..pred import npred
 
@@ -172,6 +173,10 @@ def step_rules(rep, prog, marker, com, rev):
         flags = [k for k, v in lin["init"].items() if is_const(v, False) and any(is_const(b.get(k, ("const", None)), True) for b in lin["breaks"])]
         brk = len(lin["breaks"]) == 1 and any((T0, pol) in lin["breaks"][0].get("$path", ()) and (npred(ab(T0), pol) == npred(notpar, True)) for pol in (True, False))
         guarded = bool(fin_stores) and bool(flags) and all(any(npred(cnd, pol) == npred(("after", li_, flags[0]), False) for cnd, pol in st.path) for st in fin_stores)
+        if not guarded and fin_stores and getattr(lin["node"], "orelse", None):
+            # `for w in ...: ... break` / `else: <last step>`: the else suite runs exactly when the loop was not left by break
+            inside = {id(x) for st_ in lin["node"].orelse for x in ast.walk(st_)}
+            guarded = all(id(st.node) in inside or any(id(x) in inside for x in ast.walk(st.node)) for st in fin_stores)
         rep.check("STEP.end-of-pass", brk and guarded, fwhere(f, lin["node"]), "after compelling all edges into y the pass ends: the loop is left and the last step is skipped",
                   "the pass is not ended after `compel all edges into y` (break / flag / guard of the last step changed)")
     # --- the last step
@@ -240,15 +245,48 @@ def assemble_rules(rep, prog, marker, written, flabel):
                 both = {s.idx for s in pairs} == {("tuple", (x_, y_)), ("tuple", (y_, x_))} and all(is_const(s.value, 1) for s in pairs)
                 ok = copied and both
                 why = "compelled=%s copied=%s reversible=%s both-directions=%s" % (com, copied, rev, both)
-    rep.check("LABELS.assembly", ok, fwhere(f), "compelled edges are copied as x -> y (entry 1), reversible ones set in both directions",
-              "CPDAG assembly deviates: " + why)
+    recognised = why != "assembly not recognised"
+    if not recognised:
+        # every store present is a piece of the form above, but the set of pieces is not the full one: a decided deviation
+        def piece(s_):
+            if s_.idx[0] == "cmp":
+                return s_.idx[1] == "==" and s_.idx[2] == lab and is_const(s_.idx[3])
+            w_ = [x for x in walk(s_.idx) if isinstance(x, tuple) and x[0] == "ext" and x[1] == "numpy.where"]
+            return s_.idx[0] == "tuple" and bool(w_) and w_[0][2][0][0] == "cmp" and w_[0][2][0][2] == lab
+        if all(piece(s_) for s_ in stores) and (len(masked), len(pairs)) in ((0, 2), (1, 1), (1, 0), (0, 1)):
+            recognised = True
+            why = "assembly incomplete: %d mask store(s) of compelled edges (1 expected), %d index store(s) of reversible edges (2 expected)" % (len(masked), len(pairs))
+    if not ok and not recognised and len(stores) == 2 and not pairs:
+        # two mask assignments: cpdag[labelled == c] = 1 ; cpdag[(labelled == r) | (labelled == r).T] = 1
+        zl = ("ext", "numpy.zeros_like", (lab,), ())
+
+        def eqc(t_):
+            return t_[3][1] if isinstance(t_, tuple) and len(t_) == 4 and t_[0] == "cmp" and t_[1] == "==" and t_[2] == lab and is_const(t_[3]) else None
+        s1, s2 = sorted(stores, key=lambda s_: s_.order)
+        c1 = eqc(s1.idx)
+        r2 = None
+        i2 = s2.idx
+        if isinstance(i2, tuple) and ((i2[0] == "ext" and i2[1] == "numpy.logical_or" and len(i2[2]) == 2) or (i2[0] == "binop" and i2[1] == "|")):
+            a_, b_ = (i2[2] if i2[0] == "ext" else (i2[2], i2[3]))
+            for u_, v_ in ((a_, b_), (b_, a_)):
+                if eqc(u_) is not None and v_ in (("attr", u_, "T"), ("ext", "numpy.transpose", (u_,), ())):
+                    r2 = eqc(u_)
+        base_ok = s1.base == zl and s2.base[0] == "store" and s2.base[1] == zl
+        if c1 is not None and r2 is not None and base_ok and is_const(s1.value, 1) and is_const(s2.value, 1) and s1.aug is None and s2.aug is None:
+            com, rev, ok, recognised = c1, r2, True, True
+            why = "mask form"
+    if not ok and not recognised:
+        rep.unk("LABELS.assembly", fwhere(f), "the CPDAG is assembled from the labels in a form these rules do not read")
+    else:
+        rep.check("LABELS.assembly", ok, fwhere(f), "compelled edges are copied as x -> y (entry 1), reversible ones set in both directions",
+                  "CPDAG assembly deviates: " + why)
     if ok:
         final = written - {marker}
         rep.check("LABELS.agree", {com, rev} == final and com != rev, fwhere(f), "the assembler reads exactly the labels the labeller writes: compelled=%s, reversible=%s" % (com, rev),
                   "label constants disagree: label_edges writes %s (unknown=%s), dag_to_cpdag reads compelled=%s reversible=%s - edges with an unread label vanish from the CPDAG" % (
                       sorted(final), marker, com, rev))
     rets = S.select("return", qname=q)
-    rep.check("LABELS.result", len(rets) == 1 and rets[0].value[0] == "after", fwhere(f), "returns the assembled matrix", "result is not the assembled matrix")
+    rep.check("LABELS.result", len(rets) == 1 and (rets[0].value[0] == "after" or (ok and rets[0].value[0] == "store")), fwhere(f), "returns the assembled matrix", "result is not the assembled matrix")
     return (com, rev) if ok else (None, None)
 
 
@@ -315,12 +353,18 @@ def order_rules(rep, prog):
                     ("sub", TO, ("slice", ("const", None), ("const", None), ("unop", "neg", ("const", 1)))))
     oky = Ly is not None and rev_ok and any(z == ("ext", "numpy.where", (unl,), ()) for z in walk(Ly)) and \
         ({z[2] for z in walk(Ly) if isinstance(z, tuple) and len(z) == 3 and z[0] == "sub" and z[1] == ("ext", "numpy.where", (unl,), ())} in ({("const", 0), ("const", 1)}, {("const", 1)}))
-    rep.check("STEP.order-y", oky, fwhere(f, st[0].node), "y = the last node, in topological order, with an unlabelled edge (sort(., reversed(order))[0])",
-              "y is chosen as %s" % fmt(y)[:100])
+    if Ly is None:
+        rep.unk("STEP.order-y", fwhere(f, st[0].node), "the choice of y is not written as sort(candidates, reversed(order))[0]: %s is not read" % fmt(y)[:80])
+    else:
+        rep.check("STEP.order-y", oky, fwhere(f, st[0].node), "y = the last node, in topological order, with an unlabelled edge (sort(., reversed(order))[0])",
+                  "y is chosen as %s" % fmt(y)[:100])
     want_Lx = ("sub", ("ext", "numpy.where", (("cmp", "==", ("sub", LAB, ("tuple", (FULL, y))), ("const", marker)),), ()), ("const", 0))
     okx = Lx == want_Lx and Ox == TO
-    rep.check("STEP.order-x", okx, fwhere(f, st[0].node), "x = the first node, in topological order, among the unlabelled parents of y (column y)",
-              "x is chosen as %s" % fmt(x)[:100])
+    if Lx is None:
+        rep.unk("STEP.order-x", fwhere(f, st[0].node), "the choice of x is not written as sort(unlabelled parents of y, order)[0]: %s is not read" % fmt(x)[:80])
+    else:
+        rep.check("STEP.order-x", okx, fwhere(f, st[0].node), "x = the first node, in topological order, among the unlabelled parents of y (column y)",
+                  "x is chosen as %s" % fmt(x)[:100])
 
 
 def ordering_typing(rep, prog, qnames):
